@@ -51,8 +51,12 @@ def cases(tier, seed):
     # --- direct solver
     ns = (6,) if tier == "quick" else (6, 8)
     for n in ns:
-        for blocks in ((1,), (2,), (1, 2), (2, 1), (1, 1, 1), (3,), (3, 1)):
-            for deg in ("none", "pair", "triple"):
+        for blocks in ((1,), (2,), (1, 2), (2, 1), (1, 1, 1), (3,), (3, 1), (4,)):
+            for deg in ("none", "pair", "triple", "nonadjacent", "descending"):
+                if deg == "nonadjacent" and blocks[0] < 3:
+                    continue
+                if deg == "descending" and sum(blocks) < 2:
+                    continue
                 if deg == "pair" and max(blocks) < 2:
                     continue
                 if deg == "triple" and blocks[0] < 3:
@@ -201,6 +205,13 @@ def make_problem(n, blocks, deg, basis, dtypes, seed):
     elif deg == "triple":
         E[1] = E[0]
         E[2] = E[0]
+    elif deg == "nonadjacent":  # degenerate levels whose members are not neighbours: [E1, E2, E1(, E2)]
+        E[2] = E[0]
+        if blocks[0] >= 4:
+            E[3] = E[1]
+    elif deg == "descending":  # explicit levels not sorted by energy
+        nexp_ = sum(blocks)
+        E[:nexp_] = E[:nexp_][::-1].copy()
     cplx_h = dtypes[0] == "c"
     A = rng.normal(size=(n, n))
     if cplx_h:
